@@ -68,6 +68,9 @@ def build_safe_api(w, include=ALL_POS):
         s.method("UpdateThing", u, thing, http=("patch", "/v1/{thing.name=things/*}"), body="thing", sigs=[f"thing.{w}"])
     if "route" in include:
         s.method("Route", r, thing, routing=[(w, "{rk=**}")])
+        # routing parameters WITHOUT a path template: the key on the wire is the proto field path itself (top-level and nested)
+        rb = f.msg("RouteBareRequest"); rb.field(w, "string", 1); rb.field("scope", "message", 2, type_name=inner)
+        s.method("RouteBare", rb, thing, routing=[(w, None), ("scope." + w, None)])
     rpc_name = cap(w) if (re.fullmatch(r"[A-Za-z][A-Za-z0-9]*", w) and "rpc" in include) else None
     if rpc_name:
         s.method(rpc_name, g, thing)
@@ -194,6 +197,9 @@ def check_safe(ctx, w, quick=False):
          "expect": (f"{PKG}.CreateThingRequest", {"parent": "shelves/s", w: thing_val})},
         {"tag": "routing field", "method": "route", "mode": "request-instance", "py_request": T("Route"),
          "request_b64": codec.encode_b64(f"{PKG}.RouteRequest", {w: "abc/def"}), "expect": (f"{PKG}.RouteRequest", {w: "abc/def"}), "header": "rk=abc/def"},
+        {"tag": "routing field without template", "method": "route_bare", "mode": "request-instance", "py_request": T("RouteBare"),
+         "request_b64": codec.encode_b64(f"{PKG}.RouteBareRequest", {w: "gold", "scope": {w: "wide"}}),
+         "expect": (f"{PKG}.RouteBareRequest", {w: "gold", "scope": {w: "wide"}}), "header": f"{w}=gold&scope.{w}=wide"},
     ]
     if w != "name" and "update" in include:
         calls.append({"tag": "dotted flattened parameter (terminal)", "method": "update_thing", "mode": "kwargs", "py_request": T("UpdateThing"),
@@ -209,7 +215,7 @@ def check_safe(ctx, w, quick=False):
         {"tag": "REST body", "method": "create_thing", "mode": "request-instance", "py_request": T("CreateThing"),
          "request_b64": codec.encode_b64(f"{PKG}.CreateThingRequest", {"parent": "shelves/s", w: thing_val}), "script": [{"status": 200, "body": "{}"}]},
     ]
-    need = {"get_thing": "get", "create_thing": "create", "update_thing": "update", "route": "route"}
+    need = {"get_thing": "get", "create_thing": "create", "update_thing": "update", "route": "route", "route_bare": "route"}
     calls = [c for c in calls if need.get(c["method"], "rpc") in include]
     rest_calls = [c for c in rest_calls if need.get(c["method"], "rpc") in include]
     root = genrun.materialise(res)
